@@ -12,8 +12,9 @@ RULE = ("Hypothesis-generated histories of value-editing steps (constructor, val
         "(IndexError for an index, AttributeError for an invalid dtype name) and leaves (values, dtype) "
         "identical, p.values = p.values is a no-op and text-and-back is the identity. Non-trivial = a "
         "history with >= 1 refused conversion and >= 1 dtype change with values present")
-ASSUMPTIONS = ["dtype aliases and case variants ('str', 'Int') are outside the quantifier (canonical names "
-               "and DType members only)", "indices passed to insert / item assignment are ints"]
+ASSUMPTIONS = ["a data type name given in another case is stored in lower case; the two short forms 'str' and "
+               "'bool' are stored as given (the repository's tests pin this) with str / bool values",
+               "indices passed to insert / item assignment are ints"]
 
 
 def body(history):
